@@ -1220,9 +1220,16 @@ class Attribute(DomainMapping):
 
     @property
     def _is_iterable_(self):
-        if not self._wrapped_field_:
+        """
+        Whether the attribute holds a collection that can be iterated, whatever its elements are
+        (`WrappedField.is_iterable` is about relationships only and is False for a collection of builtins).
+        """
+        wrapped_field = self._wrapped_field_
+        if not wrapped_field:
             return False
-        return self._wrapped_field_.is_iterable
+        return wrapped_field.is_container and hasattr(
+            wrapped_field.container_type, "__iter__"
+        )
 
     @cached_property
     def _wrapped_type_(self):
